@@ -35,7 +35,8 @@ from . import core, devices
 # candidate repairs (exact change test for the applied potential; terminal value re-imposed
 # after the Euler step).  Which one the tree under test implements is decided by TLC
 # (trace validation under both), and that mechanism is then model-checked.
-CODE = dict(MUnitDirs=False, MMemoLpsi=False, MMask=True, MBothHalves=True, MFreshLinks=True, MFixPsi=True, MFixFlag="at_use", MSkipEqual=False)
+CODE = dict(MUnitDirs=False, MMemoLpsi=False, MMask=True, MBothHalves=True, MFreshLinks=True, MFixPsi=True, MFixFlag="at_use", MSkipEqual=False,
+            MTermInfo="current")
 PINNED = dict(MTrigger="prev_close", MReimpose="never", MReimposeOnRetry=True, **CODE)
 REPAIRED = dict(MTrigger="exact", MReimpose="configured", MReimposeOnRetry=True, **CODE)
 
@@ -54,6 +55,8 @@ TRACE_BOUNDS = dict(Insts=["strip6", "fan5"], Modes=["none", "terminals", "disab
                     DForms=["fresh", "inplace", "view"],
                     Scrs=[False, True], Dyns=[False, True], Vs=["zero", "nonzero", "none"], Seeds=["configured", "other"],
                     Forms=["keyword"], MaxSteps=10 ** 6, MaxIter=10 ** 6, AMax=250, IMax=250)
+# device histories (OpsCache.tla, Hists); bounds that do not name them explore the fresh device only
+HISTS = ["fresh", "edited", "reset"]
 
 
 def _set(xs):
@@ -65,9 +68,10 @@ def cfg_text(bounds, mech, invariants, spec, view=None, extra=""):
     lines = ["CONSTANTS"]
     for k in ("Insts", "Modes", "QIds", "Scrs", "Dyns", "Vs", "Seeds", "Forms", "DForms"):
         lines.append(f" {k} = {_set(b[k])}")
+    lines.append(f" Hists = {_set(b.get('Hists', ['fresh']))}")
     for k in ("MaxCalls", "MaxSteps", "MaxIter", "AMax", "IMax"):
         lines.append(f" {k} = {b[k]}")
-    for k, v in mech.items():
+    for k, v in dict(CODE, **mech).items():        # a stored mechanism may predate a switch: the code's value
         lines.append(f" {k} = {core.tla_str(v)}")
     lines.append(f"SPECIFICATION {spec}")
     if view:
@@ -447,7 +451,7 @@ def spec_device(tdgl, a):
     rects = terminal_rects(kind)
     form = a.get("terminal_form", "box")
     transform = a.get("transform")
-    if form == "box" and not transform:
+    if form == "box" and not transform and not a.get("history"):
         dev = devices.make(tdgl, kind, mel=a.get("mel", 0.8), xi=a.get("xi", 1.0))
     else:
         from tdgl.geometry import box, circle
@@ -543,6 +547,88 @@ def terminal_site_oracle(dev, polys):
     return np.flatnonzero(inside).astype(np.int64), np.flatnonzero(outside).astype(np.int64)
 
 
+def _drive(tdgl, a, has_terminals):
+    """Keyword arguments of tdgl.solve that describe the drive of a natural run (currents, applied potential)."""
+    kw = {}
+    if has_terminals and a.get("current"):
+        kw["terminal_currents"] = devices.balanced_currents(a.get("dev", "bar"), a["current"])
+    ramp = a.get("ramp")
+    if ramp is not None:
+        kw["applied_vector_potential"] = tdgl.Parameter(ramp_vector_potential, time_dependent=True, B0=a.get("field", 0.0),
+                                                        r1=ramp.get("r1", 0.0), T1=ramp.get("T1", 0.0), r2=ramp.get("r2", 0.0))
+    else:
+        kw["applied_vector_potential"] = a.get("field", 0.0)
+    return kw
+
+
+def apply_history(tdgl, a, dev, term_polys, work, timing):
+    """History of ONE Device object before the observed solve (OpsCache.tla, Hists).  a['history']: list of
+      ["look"]                        terminal_info() and points are evaluated (what a script plots / prints)
+      ["solve", terminal_psi]         an unobserved short solve with the run's drive ('none' | [re, im])
+      ["edit", name, how, arg]        the terminal polygon called `name` is changed IN PLACE:
+                                      how = 'translate' (dx, dy) | 'scale' (xfact, yfact) | 'rotate' degrees  ->
+                                      Polygon.translate / scale / rotate(..., inplace=True) about the origin;
+                                      how = 'points': arg is a transform list, the harness computes the new corners with
+                                      its own arithmetic and assigns Polygon.points
+      ["mesh", max_edge_length]       Device.make_mesh again
+    The expected terminal polygons follow by the harness's own arithmetic (transform_points on the corner numbers it
+    specified); nothing is read back from the package.  (A solution computed before an edit cannot seed a run after it:
+    tdgl.solve refuses a seed_solution whose device differs.)  Returns (polys, class, info, last solution of the history):
+    class 'fresh' (no edit), 'edited' (an edit after a use on the present mesh, not meshed again), 'reset' (edits, but
+    nothing evaluated on the present mesh predates the last of them)."""
+    names = list(terminal_rects(a.get("dev", "bar")))
+    polys = [np.array(p, copy=True) for p in term_polys]
+    used = False            # terminal_info() / a solve happened on the present mesh
+    stale_possible = False  # ... and a terminal was edited afterwards
+    edits, uses, meshes, last = [], 0, 0, None
+    before = None           # terminal sites (oracle) at the last use before the first edit on the present mesh
+    for n, stp in enumerate(a["history"]):
+        op = stp[0]
+        if op == "look":
+            _ = dev.terminal_info(), dev.points
+            used, uses = True, uses + 1
+        elif op == "solve":
+            so = tdgl.SolverOptions(**dict(timing, solve_time=a.get("history_time", 4 * timing["dt_init"])), save_every=2,
+                                    progress_interval=10 ** 9, pause_on_interrupt=False, output_file=os.path.join(work, f"hist{n}.h5"),
+                                    include_screening=False, field_units="mT", current_units="uA", terminal_psi=_parse_psi(stp[1]))
+            last = tdgl.solve(dev, so, **_drive(tdgl, a, len(polys) > 0))
+            used, uses = True, uses + 1
+        elif op == "edit":
+            _, name, how, arg = stp
+            k = names.index(name)
+            poly = [t for t in dev.terminals if t.name == name][0]
+            if used and before is None:
+                before = set(terminal_site_oracle(dev, polys)[0].tolist())
+            if how == "translate":
+                poly.translate(dx=arg[0], dy=arg[1], inplace=True)
+                tr = [("translate", tuple(arg))]
+            elif how == "scale":
+                poly.scale(xfact=arg[0], yfact=arg[1], inplace=True)
+                tr = [("scale", tuple(arg))]
+            elif how == "rotate":
+                poly.rotate(arg, inplace=True)
+                tr = [("rotate", arg)]
+            elif how == "points":
+                tr = [(o, (tuple(x) if isinstance(x, (list, tuple)) else x)) for o, x in arg]
+                poly.points = transform_points(polys[k], tr)
+            else:
+                raise ValueError(how)
+            polys[k] = transform_points(polys[k], tr)
+            edits.append(how)
+            stale_possible = stale_possible or used
+        elif op == "mesh":
+            dev.make_mesh(max_edge_length=stp[1], smooth=0)
+            used, stale_possible, before, meshes = False, False, None, meshes + 1
+        else:
+            raise ValueError(op)
+    cls = "fresh" if not edits else ("edited" if stale_possible else "reset")
+    info = dict(edits=edits, uses=uses, meshes=meshes, cls=cls)
+    if cls == "edited":
+        after = set(terminal_site_oracle(dev, polys)[0].tolist())
+        info.update(stay=len(before & after), enter=len(after - before), leave=len(before - after))
+    return polys, cls, info, last
+
+
 def _parse_psi(tp):
     return None if tp == "none" else (complex(tp[0], tp[1]) if tp[1] else float(tp[0]))
 
@@ -607,6 +693,10 @@ def natural_run(tdgl, a, tmp):
         pass            # built below (needs the drive): options read back from the file of a short run
     else:
         raise ValueError(form)
+    # history of the Device object: used, terminals edited in place, possibly meshed again (same object throughout)
+    hist_cls, hist_info, hist_last = "fresh", None, None
+    if a.get("history"):
+        term_polys, hist_cls, hist_info, hist_last = apply_history(tdgl, a, dev, term_polys, work, timing)
     # the terminal site set is decided geometrically and independently of Device.terminal_info() / Device.points
     tsites, nonterm = terminal_site_oracle(dev, term_polys)
     has_terminals = len(term_polys) > 0
@@ -837,8 +927,8 @@ def natural_run(tdgl, a, tmp):
         md = "none" if not has_terminals else ("disabled" if v is None else "terminals")
         return dict(level="step", inst="fan5", mode=md, scr=bool(opts.include_screening), dyn=ramp is not None,
                     v=("zero" if md == "none" else vc), seed="configured", form=form, v0=vc, exact=False, driven=True,
-                    ev=ev + [{"ev": "raised", "error": raised}],
-                    info=dict(sites=nsites, terminal_sites=int(len(tsites)), xi=float(dev.layer.coherence_length), remeshed=remeshed,
+                    hist=hist_cls, ev=ev + [{"ev": "raised", "error": raised}],
+                    info=dict(history=hist_info, sites=nsites, terminal_sites=int(len(tsites)), xi=float(dev.layer.coherence_length), remeshed=remeshed,
                               steps=0, frames=0, retried_steps=0, seeded=False, raised=raised, max_terminal_deviation_after_update=0.0,
                               max_terminal_deviation_after_retried_update=0.0, max_terminal_deviation_in_frames=0.0,
                               max_step_mismatch=0.0, later_iterations_with_new_induced=0, max_relative_staleness=0.0,
@@ -867,7 +957,8 @@ def natural_run(tdgl, a, tmp):
     return dict(level="step", inst="fan5", mode=mode, scr=bool(opts.include_screening), dyn=ramp is not None, v=vcls,
                 seed=("other" if seed_cls == "seed" else "configured"), form=form,
                 v0=(_psi_class(v0) if form == "assign" else vcls), exact=False, driven=bool(a.get("field") or a.get("current")), ev=ev,
-                info=dict(sites=nsites, terminal_sites=int(len(tsites)), xi=float(dev.layer.coherence_length), remeshed=remeshed,
+                hist=(hist_cls if mode != "none" else "fresh"),
+                info=dict(history=hist_info, sites=nsites, terminal_sites=int(len(tsites)), xi=float(dev.layer.coherence_length), remeshed=remeshed,
                           edges_opposite_obtuse_angle=raw_weights(dev.mesh)["obtuse"], well_centred_sites=raw_weights(dev.mesh)["well_centred"],
                           ambiguous_sites=int(nsites - len(tsites) - len(nonterm)), max_step_mismatch=st["max_step_mismatch"],
                           later_iterations_with_new_induced=st["later_iter"], frames=len(classes), steps=nfin,
